@@ -47,6 +47,34 @@ Proof. exact (demux_spec hv ha tags fuel s tm). Qed.
 Theorem c09_segmentation fuel s1 s2 : flat s1 = flat s2 -> demux fuel s1 = demux fuel s2.
 Proof. exact (demux_seg fuel s1 s2). Qed.
 
+(* The readers the harness builds (wire cut into segments whose sizes cycle through any list
+   of sizes -- 1-byte reads included --, ending with EOF or an injected fault) deliver exactly
+   the wire, so the round trip holds for each of them *)
+Theorem c09_harness_reader wire sizes cut fault : (cut < 0)%Z ->
+  flat (mk_stream wire sizes cut fault) = (wire, if (fault <? 0)%Z then eEOF else 10 + Z.to_N fault).
+Proof. exact (mk_stream_flat wire sizes cut fault). Qed.
+
+Theorem c09_roundtrip_harness hv ha tags sizes fault :
+  Forall wf_tag tags ->
+  demux (S (length tags)) (mk_stream (mux hv ha tags) sizes (-1) fault) =
+  Ok ((1, hv, ha), tags, (0, if (fault <? 0)%Z then eEOF else 10 + Z.to_N fault)).
+Proof. exact (demux_mux_harness hv ha tags sizes fault). Qed.
+
+(* Truncated files (the first c bytes of a written file, then EOF or a fault): fewer than the
+   13 header bytes -> ReadHeader fails with the stream's end; otherwise the header and a
+   prefix of the written tags are returned, never a tag that was not written or an altered one *)
+Theorem c09_truncated_prefix hv ha tags c fuel s tm :
+  Forall wf_tag tags -> (length tags < fuel)%nat ->
+  flat s = (firstn c (mux hv ha tags), tm) ->
+  ((c < 13)%nat -> demux fuel s = Err tm) /\
+  ((13 <= c)%nat -> exists k w, demux fuel s = Ok ((1, hv, ha), firstn k tags, (w, tm))).
+Proof. exact (demux_truncated hv ha tags c fuel s tm). Qed.
+
+(* why the body bound is 2^24: the tag header's size field holds the length modulo 2^24 *)
+Theorem c09_size_field_mod t : t_type t < 256 -> t_ts t < 4294967296 -> lenN (t_body t) < 4294967296 ->
+  parse_tag_header (mux_tag_header t) = Ok (t_type t, lenN (t_body t) mod 16777216, t_ts t).
+Proof. exact (parse_mux_tag_header_any t). Qed.
+
 (* the muxer writes bytes *)
 Theorem c09_mux_bytes hv ha tags :
   Forall (fun t => wf_bytes (t_body t)) tags -> wf_bytes (mux hv ha tags).
@@ -98,6 +126,10 @@ Print Assumptions c09_roundtrip_trailing.
 Print Assumptions c09_layout.
 Print Assumptions c09_spec_read.
 Print Assumptions c09_segmentation.
+Print Assumptions c09_harness_reader.
+Print Assumptions c09_roundtrip_harness.
+Print Assumptions c09_truncated_prefix.
+Print Assumptions c09_size_field_mod.
 Print Assumptions c09_mux_bytes.
 Print Assumptions flv_demux_total.
 Print Assumptions c09_demux_returns.
